@@ -72,7 +72,7 @@ def _word(kw):
 def _oracle_accepts(names):
     aut = STATE["aut"]
     if CFG["open"]:
-        mode, tok = CFG["open"]
+        mode, tok = CFG["open"][:2]          # processContents (lax/skip) does not change the language
         return aut.accepts_open(names, mode, S.WILD[tok][1], CFG["version"])
     return aut.accepts(names, CFG["version"])
 
@@ -180,7 +180,7 @@ def models(version):
         for m in comp:
             out.append({"key": model_key(version, m), "shape": m, "open": None, "family": "competition"})
         for base in (Sq(E('a'), E('b', 0, 1)), C(E('a'), E('b'), mn=0, mx=None), Sq(E('a', 0, 2), Sq(E('b'), E('c', 0, 1), mn=0, mx=1))):
-            for oc in (("interleave", "any"), ("interleave", "other"), ("suffix", "any"), ("suffix", "other")):
+            for oc in (("interleave", "any"), ("interleave", "other"), ("suffix", "any"), ("suffix", "other"), ("interleave", "any", "skip"), ("suffix", "other", "skip")):
                 out.append({"key": model_key(version, base, oc), "shape": base, "open": list(oc), "family": "open"})
     return out
 
@@ -221,12 +221,13 @@ def obligations(tier, seed):
     import random
     rnd = random.Random(seed)
     out = []
-    if tier == "quick":
+    quick = tier == "quick"
+    if quick:
         n, pool, to = 4, 4, 240
-        per = {"catalogue": 12, "all": 2, "competition": 5, "open": 3}
+        per = {"catalogue": 12, "all": 2, "competition": 5, "open": 4}
     else:
         n, pool, to = 4, 7, 1800
-        per = {"catalogue": 120, "all": 7, "competition": 5, "open": 12}
+        per = {"catalogue": 120, "all": 7, "competition": 5, "open": 18}
     for version in ("1.0", "1.1"):
         ms = models(version)
         fam = {}
@@ -234,12 +235,17 @@ def obligations(tier, seed):
             fam.setdefault(m["family"], []).append(m)
         for f, k in per.items():
             lst = fam.get(f, [])
-            for m in rnd.sample(lst, min(k, len(lst))):
+            chosen = rnd.sample(lst, min(k, len(lst)))
+            if quick and f == "open":
+                # the skip variants are always part of the quick tier
+                chosen = [m for m in lst if m["open"] and len(m["open"]) > 2][:2] + chosen[:max(0, k - 1)]
+            for m in chosen:
+                n_, pool_ = (3, 5) if (quick and f == "open") else (n, pool)          # open content: an undeclared name in the alphabet
                 out.append({
                     "name": "word/%s" % m["key"].replace(" ", ""),
-                    "fn": "h_word", "pre": "pre_word", "args": [["n", "int"]] + [["w%d" % k2, "int"] for k2 in range(n)],
-                    "config": {"shape": m["shape"], "version": version, "occ": None, "open": m["open"], "n": n, "pool": pool, "key": m["key"]},
+                    "fn": "h_word", "pre": "pre_word", "args": [["n", "int"]] + [["w%d" % k2, "int"] for k2 in range(n_)],
+                    "config": {"shape": m["shape"], "version": version, "occ": None, "open": m["open"], "n": n_, "pool": pool_, "key": m["key"]},
                     "timeout": to, "twin_timeout": 30,
-                    "bound": "all words of length <= %d over %d names (%s)" % (n, pool, ", ".join(x.split('}')[-1] for x in POOL[:pool])),
+                    "bound": "all words of length <= %d over %d names (%s)" % (n_, pool_, ", ".join(x.split('}')[-1] for x in POOL[:pool_])),
                 })
     return out
